@@ -3,7 +3,8 @@
 L: Props/C10.lean (identifier generation, reserved words, WfDescr consequences, exit status).
 K: (a) asn1c_make_identifier / construct_base_name: real functions (harness/naming_driver.c) vs Impl.Naming;
    (b) exit status: asn1c -E / -E -F / full run vs Impl.CompilerMain.mainStatus.
-P: generated valid modules (nasty identifier pool) and modules with injected semantic errors x option sets:
+P: generated valid modules (nasty identifier pool), modules with injected semantic errors and multi-module sets
+   (2-3 files with IMPORTS, deliberately colliding inner member names across / inside modules) x option sets:
    asn1c ends by exit(); exit 0 => every emitted .c compiles (gcc -std=c99), the exact emitted file set links
    with a PDU-table stub, every emitted header passes g++ -std=gnu++14 -fsyntax-only, every descriptor
    satisfies WfDescr (Lean driver) and agrees with the source module on optional members;
@@ -289,12 +290,16 @@ def job(args):
     idx, tag, text, names, optname, opts, want_dump = args
     asn1c = build.build_asn1c()
     d = cgen.fresh_dir("c10", f"{os.getpid()}-{idx}")
-    res = {"idx": idx, "tag": tag, "opt": optname, "opts": opts, "text": text, "names": names}
+    files = text if isinstance(text, list) else [("module.asn1", text)]
+    text = "\n".join(t for _, t in files)
+    res = {"idx": idx, "tag": tag, "opt": optname, "opts": opts, "text": text, "names": names, "files": files}
     try:
-        f = os.path.join(d, "module.asn1")
-        with open(f, "w") as fh: fh.write(text)
+        paths = []
+        for fn, ft in files:
+            f = os.path.join(d, fn); paths.append(f)
+            with open(f, "w") as fh: fh.write(ft)
         out = os.path.join(d, "out")
-        r = cgen.run_asn1c(asn1c, [f], out, ["-no-gen-example"] + opts)
+        r = cgen.run_asn1c(asn1c, paths, out, ["-no-gen-example"] + opts)
         res.update(rc=r["rc"], died=cgen.died(r), death=cgen.death_summary(r) if cgen.died(r) else None,
                    stderr_empty=not r["err"].strip(), err_head=r["err"].strip().split("\n")[0][:200] if r["err"].strip() else "")
         if r["rc"] != 0 or cgen.died(r): return res
@@ -429,6 +434,17 @@ def run(ctx):
             names = [n for n, _ in base["types"]] + bad_names
             for on, opts in (OPTSETS[0], OPTSETS[ctx.rng.randrange(1, len(OPTSETS))]):
                 jobs.append((len(jobs), ("fault", kind), text, sorted(set(names), key=names.index), on, opts, True))
+    # multi-module sets (2-3 files with IMPORTS) with deliberately colliding C names, with and without -fcompound-names
+    nmulti = 12 if ctx.quick else 90
+    modes = [m for m in cgen.MULTI_MODES if m != "same-toplevel"]
+    for i in range(nmulti):
+        mode = modes[i % len(modes)]
+        td = ctx.rng.choice([None, "AUTOMATIC", "IMPLICIT", "EXPLICIT"])
+        files, names, desc = cgen.gen_multi(ctx.rng, f"X{i}", ctx.rng.choice([2, 2, 3]), mode, td)
+        if ctx.rng.random() < 0.5: files = files[::-1]
+        extra = ctx.rng.choice([["-no-gen-OER"], ["-fwide-types"], ["-findirect-choice"], ["-no-gen-PER"], ["-fincludes-quoted"]])
+        for on, opts in (("default", []), ("compound", ["-fcompound-names"]), ("other", extra)):
+            jobs.append((len(jobs), ("multi", desc), files, names, on, opts, True))
     # witnesses of the known findings of this property (replayed through the same pipeline)
     for f in ctx.findings:
         w = f.get("witness", {})
@@ -437,18 +453,22 @@ def run(ctx):
             opts = w.get("opts") or w.get("options_b") or ["-fcompound-names"]
             if isinstance(opts, str): opts = opts.split()
             jobs.append((len(jobs), ("witness", f["id"]), text, w.get("types") or type_names_of(text), "witness", opts, False))
-    ctx.log(f"running {len(jobs)} asn1c+gcc pipelines ({nvalid} valid modules x {len(OPTSETS)} option sets, {len(kinds) * reps} single-fault modules x 2)")
+    ctx.log(f"running {len(jobs)} asn1c+gcc pipelines ({nvalid} valid modules x {len(OPTSETS)} option sets, {len(kinds) * reps} single-fault modules x 2, "
+            f"{nmulti} multi-module collision sets x 3)")
     results = cgen.pmap(job, jobs)
     ctx.log("pipelines done")
 
     # ---------------- K (b): exit status vs model (phase outcomes observed with -E and -E -F)
-    texts = {}
-    for r in results: texts.setdefault(r["text"], []).append(r)
+    texts = {}; tfiles = {}
+    for r in results:
+        texts.setdefault(r["text"], []).append(r); tfiles[r["text"]] = r["files"]
     def phases(text):
         d = cgen.fresh_dir("c10", f"{os.getpid()}-ph-{abs(hash(text)) % 10**9}")
         try:
-            f = os.path.join(d, "module.asn1"); open(f, "w").write(text)
-            pe = cgen.run_asn1c(asn1c, [f], None, ["-E"]); pf = cgen.run_asn1c(asn1c, [f], None, ["-E", "-F"])
+            paths = []
+            for fn, ft in tfiles[text]:
+                f = os.path.join(d, fn); open(f, "w").write(ft); paths.append(f)
+            pe = cgen.run_asn1c(asn1c, paths, None, ["-E"]); pf = cgen.run_asn1c(asn1c, paths, None, ["-E", "-F"])
             return text, pe, pf
         finally: shutil.rmtree(d, ignore_errors=True)
     ph = cgen.pmap(phases, list(texts))
@@ -539,14 +559,16 @@ def run(ctx):
         if nviol < 5:
             nviol += 1
             ctx.violation(f"C10 fails on C ({cls}) for {r['tag']} with options {r['opts']}: {str(detail)[:200]}",
-                          {"module": r["text"], "options": r["opts"], "failure": cls, "detail": str(detail)[:2000],
+                          {"module": r["text"], "files": r["files"] if len(r["files"]) > 1 else None, "names": r["names"],
+                           "options": r["opts"], "failure": cls, "detail": str(detail)[:2000],
                            "type": r.get("type"), "dump": r.get("dump"), "count_in_class": n})
 
 def replay(ctx, path):
     r = json.load(open(path))
     if "module" not in r:
         print("replay: nothing to run (proof obligation / correspondence record):", json.dumps(r.get("broken", r))[:600]); return
-    res = job((0, ("replay", 0), r["module"], type_names_of(r["module"]), "replay", r.get("options", []), True))
-    res.pop("text", None); d = res.pop("dumps", None)
+    src = [tuple(x) for x in r["files"]] if r.get("files") else r["module"]
+    res = job((0, ("replay", 0), src, r.get("names") or type_names_of(r["module"]), "replay", r.get("options", []), True))
+    res.pop("text", None); res.pop("files", None); d = res.pop("dumps", None)
     print("replay:", json.dumps(res, default=str)[:1500])
     print("classification:", classify(dict(res, text=r["module"])))
